@@ -32,11 +32,16 @@ def main():
         tier = opts[opts.index('--tier') + 1]
     wt = '/tmp/sw_%s' % name
     sh(['git', '-C', '/repo', 'worktree', 'remove', '--force', wt])
-    rc, out = sh(['git', '-C', '/repo', 'worktree', 'add', '--detach', wt, 'HEAD'])
+    base = 'HEAD'
+    prev_meta = os.path.join(VERIF, 'seeded', name, 'meta.json')
+    if os.path.exists(prev_meta) and '--head' not in opts:
+        # a kept change is re-evaluated on the tree it was written against
+        base = json.load(open(prev_meta)).get('repo_head') or 'HEAD'
+    rc, out = sh(['git', '-C', '/repo', 'worktree', 'add', '--detach', wt, base])
     if rc:
         raise SystemExit(out)
     meta = dict(name=name, property=prop, source=src,
-                verif_commit=sh(['git', '-C', VERIF, 'describe', '--always', '--dirty'])[1].strip(), repo_head=sh(['git', '-C', '/repo', 'rev-parse', 'HEAD'])[1].strip())
+                verif_commit=sh(['git', '-C', VERIF, 'describe', '--always', '--dirty'])[1].strip(), repo_head=sh(['git', '-C', '/repo', 'rev-parse', base])[1].strip())
     try:
         env = dict(os.environ, DEMO_REPO=wt, PYTHONHASHSEED='0')
         demo = os.path.join(src, 'demo.py')
